@@ -20,7 +20,8 @@ EXTENDS Naturals, Sequences, FiniteSets, TLC, Json
 
 Pres == {"bol", "space", "lparen", "lbracket", "lbrace", "comma", "equals", "plus", "colon", "dot", "semicolon", "star", "at", "minus", "not"}
 Fols == {"eol", "space", "ident", "rparen", "comma", "dot"}
-Ctxs == {"code", "call", "subscript", "dict", "slice", "annotation", "kwarg", "string", "comment", "attrstore", "import", "fromimport", "fstring"}
+Ctxs == {"code", "call", "subscript", "dict", "slice", "annotation", "kwarg", "string", "comment", "attrstore", "import", "fromimport", "fstring",
+         "pkgattr"}     \* an attribute of a package after `import a.b.c` (three levels)
 Abcs == {"ascii", "under9", "nonascii"}
 Contexts == [pre : Pres, run : 0..3, abc : Abcs, fol : Fols, ctx : Ctxs]
 
